@@ -188,6 +188,7 @@ def c18_3(ck, prog):
     if flag is None:
         raise AnalysisBroken('METHOD_FLAG_PRIVILEGED vanished')
     rows = handler_rows(prog)
+    handler_reference(prog, r)
     bm = [x for x in rows if x['name'] == 'BecomeMonitor']
     if len(bm) != 1:
         raise AnalysisBroken('BecomeMonitor row not found')
@@ -222,6 +223,76 @@ def handler_rows(prog):
     if len(rows) < 20:
         raise AnalysisBroken('only %d MessageHandler rows found' % len(rows))
     return rows
+
+
+# (table, method) -> (flags, in signature, out signature): the specification's org.freedesktop.DBus interface
+# (signatures) and the reference tree's reachability flags (1 = callable on any object path, 2 = privileged,
+# 4 = not from containers); rows added later are reported until they are reviewed and added here
+HANDLER_REF = {
+    ('dbus_message_handlers', 'Hello'): (1, '', 's'),
+    ('dbus_message_handlers', 'RequestName'): (1, 'su', 'u'),
+    ('dbus_message_handlers', 'ReleaseName'): (1, 's', 'u'),
+    ('dbus_message_handlers', 'StartServiceByName'): (1, 'su', 'u'),
+    ('dbus_message_handlers', 'UpdateActivationEnvironment'): (2, 'a{ss}', ''),
+    ('dbus_message_handlers', 'NameHasOwner'): (1, 's', 'b'),
+    ('dbus_message_handlers', 'ListNames'): (1, '', 'as'),
+    ('dbus_message_handlers', 'ListActivatableNames'): (1, '', 'as'),
+    ('dbus_message_handlers', 'AddMatch'): (1, 's', ''),
+    ('dbus_message_handlers', 'RemoveMatch'): (1, 's', ''),
+    ('dbus_message_handlers', 'GetNameOwner'): (1, 's', 's'),
+    ('dbus_message_handlers', 'ListQueuedOwners'): (1, 's', 'as'),
+    ('dbus_message_handlers', 'GetConnectionUnixUser'): (1, 's', 'u'),
+    ('dbus_message_handlers', 'GetConnectionUnixProcessID'): (1, 's', 'u'),
+    ('dbus_message_handlers', 'GetAdtAuditSessionData'): (1, 's', 'ay'),
+    ('dbus_message_handlers', 'GetConnectionSELinuxSecurityContext'): (1, 's', 'ay'),
+    ('dbus_message_handlers', 'ReloadConfig'): (1, '', ''),
+    ('dbus_message_handlers', 'GetId'): (1, '', 's'),
+    ('dbus_message_handlers', 'GetConnectionCredentials'): (1, 's', 'a{sv}'),
+    ('properties_message_handlers', 'Get'): (0, 'ss', 'v'),
+    ('properties_message_handlers', 'GetAll'): (0, 's', 'a{sv}'),
+    ('properties_message_handlers', 'Set'): (0, 'ssv', ''),
+    ('introspectable_message_handlers', 'Introspect'): (1, '', 's'),
+    ('monitoring_message_handlers', 'BecomeMonitor'): (2, 'asu', ''),
+    ('verbose_message_handlers', 'EnableVerbose'): (4, '', ''),
+    ('verbose_message_handlers', 'DisableVerbose'): (4, '', ''),
+    ('peer_message_handlers', 'GetMachineId'): (1, '', 's'),
+    ('peer_message_handlers', 'Ping'): (1, '', ''),
+}
+
+
+def handler_reference(prog, r, names=None):
+    """Rows of the driver's method tables equal the reference (flags and signatures); with `names`,
+    only those methods of org.freedesktop.DBus are compared."""
+    rows = handler_rows(prog)
+    seen = set()
+    for row in rows:
+        k = (row['table'], row['name'])
+        if names is not None and (row['table'] != 'dbus_message_handlers' or row['name'] not in names):
+            continue
+        seen.add(row['name'])
+        key = 'table:%s.%s' % (row['table'].replace('_message_handlers', ''), row['name'])
+        ref = HANDLER_REF.get(k)
+        got = (row['flags'], row['in_args'] or '', row['out_args'] or '')
+        if ref is None:
+            if k[0] in ('stats_message_handlers',):
+                continue
+            r.violation(key, row['handler'] or 'table', 'bus/driver.c', None,
+                        'method %s of %s is not in the reviewed reference table of rules/C18.py' % (row['name'], k[0]))
+        elif got != ref:
+            what = []
+            if got[0] != ref[0]:
+                what.append('flags %d (reference %d: 1 = any object path, 2 = privileged, 4 = no containers)' % (
+                    got[0], ref[0]))
+            if got[1] != ref[1]:
+                what.append('in-signature %r (specification %r)' % (got[1], ref[1]))
+            if got[2] != ref[2]:
+                what.append('out-signature %r (specification %r)' % (got[2], ref[2]))
+            r.violation(key, row['handler'] or 'table', 'bus/driver.c', None,
+                        'the table row of %s has %s' % (row['name'], '; '.join(what)))
+        else:
+            r.ok(key)
+    if names is not None and set(names) - seen:
+        raise AnalysisBroken('methods %s vanished from the driver table' % sorted(set(names) - seen))
 
 
 def flag_enforced(prog, r, flagname, checker):
